@@ -459,6 +459,13 @@ ares_status_t ares_sysconfig_set_options(ares_sysconfig_t *sysconfig,
   size_t        i;
   ares_status_t status;
 
+  /* An empty string (e.g. RES_OPTIONS set but empty) has no options in it.
+   * ares_buf_create_const() rejects zero-length data, which is not an out of
+   * memory condition. */
+  if (ares_strlen(str) == 0) {
+    return ARES_SUCCESS;
+  }
+
   buf = ares_buf_create_const((const unsigned char *)str, ares_strlen(str));
   if (buf == NULL) {
     return ARES_ENOMEM;
